@@ -97,6 +97,10 @@ def run(rep, tier, seed):
         lenient = car != "text-attr"
         got = norm_lines(tl[0], lenient)
         exp = norm_lines([textc.conc(l) for l in cs["lines"]], lenient)
+        if len(exp) == 1 and len(got) == 1 and len(cs["lines"]) == 2 and cs["lines"][1] == []:
+            # one line followed by a newline: blanks before that newline fall to the writer's
+            # blank-trimming (the normalisation C03 lists as a finding for real SVG); not compared
+            got, exp = [got[0].rstrip()], [exp[0].rstrip()]
         if got != exp:
             rep.violation(f"text:{car}:chars", {"case": cs, "xml": c["xml"], "out": vlib.trunc(geom.strip_style(r["out"]), 2000),
                                                "detail": f"character data of the generated text {got!r} differs from the author's lines {exp!r}"})
